@@ -16,9 +16,11 @@ RUNNER = "engine"
 ID_POOL = [None, 1, "1", 1.0, True, "True", 0, "0", False, "", "a", "A", [1], "[1]", {"a": 1}, "None", 2**53 + 1,
            float(2**53), "é", -0.0, 0.0]
 TYPE_POOL = [None, "doc", "Doc", "*", "", 1, "1", True, ["doc"], ["doc", "img"], ["*"], [1], ["1"], [], ["img", "*"],
-             {"a": 1}]
+             {"a": 1}, [1, 2], [1.0, 2.0], [True, 2]]
 RES_TYPE_POOL = [None, "doc", "img", "*", "", 1, "1", True, ["doc"], 1.0]
-ATTR_VALS = [None, 1, "1", 1.0, True, "a", ["a", "b"], [1, "1"], [], {"k": 1}, "['a', 'b']", 0, False, ""]
+ATTR_VALS = [None, 1, "1", 1.0, True, "a", ["a", "b"], [1, "1"], [], {"k": 1}, "['a', 'b']", 0, False, "",
+             # one-of lists that are equal as Python values (== and hash) but spelt differently
+             [1, 2], [1.0, 2.0], [True, 2], [0, 5], [False, 5.0], [None], [None, 1]]
 
 
 def impl_match_resource(rdef, resource, strict_arg):
